@@ -4,6 +4,9 @@ import "strings"
 
 // Pass is one parsing context evaluated on fresh state.
 type Pass struct {
+	// Hit, when set, is told the name of every folding / whitelist rule that
+	// fires (the reference is instrumented, the library is not).
+	Hit   func(rule string)
 	S     string
 	M     Mode
 	KW    Lookup
@@ -12,6 +15,12 @@ type Pass struct {
 	Folds int
 	FP    string
 	NFold int // number of folded tokens
+}
+
+func (p *Pass) hit(rule string) {
+	if p.Hit != nil {
+		p.Hit(rule)
+	}
 }
 
 func upperEq(want, got string) bool { return strings.ToUpper(got) == want }
@@ -106,6 +115,7 @@ func (p *Pass) Fold() int {
 				(c(0) == 'n' && c(1) == 'o' && c(2) == '(' && (c(3) == 'n' || c(3) == '1') && c(4) == ')') ||
 				(c(0) == '1' && c(1) == ')' && c(2) == ',' && c(3) == '(' && c(4) == '1') ||
 				(c(0) == 'n' && c(1) == ')' && c(2) == 'o' && c(3) == '(' && c(4) == 'n') {
+				p.hit("fold5:special-case")
 				if pos > maxTokens {
 					v[1] = v[5]
 					pos, left = 2, 0
@@ -127,19 +137,23 @@ func (p *Pass) Fold() int {
 		// ---- two-token rules -------------------------------------------
 		switch {
 		case a.Cat == 's' && b.Cat == 's':
+			p.hit("fold2:s.s")
 			pos--
 			p.Folds++
 			continue
 		case a.Cat == ';' && b.Cat == ';':
+			p.hit("fold2:;.;")
 			pos--
 			p.Folds++
 			continue
 		case (a.Cat == 'o' || a.Cat == '&') && (unary(b) || b.Cat == 't'):
+			p.hit("fold2:op.unary-or-type")
 			pos--
 			p.Folds++
 			left = 0
 			continue
 		case a.Cat == '(' && unary(b):
+			p.hit("fold2:(.unary")
 			pos--
 			p.Folds++
 			if left > 0 {
@@ -147,6 +161,7 @@ func (p *Pass) Fold() int {
 			}
 			continue
 		case p.merge(a, b):
+			p.hit("fold2:merge-phrase")
 			pos--
 			p.Folds++
 			if left > 0 {
@@ -154,12 +169,15 @@ func (p *Pass) Fold() int {
 			}
 			continue
 		case a.Cat == ';' && b.Cat == 'f' && len(b.Val) >= 2 && (b.Val[0] == 'I' || b.Val[0] == 'i') && (b.Val[1] == 'F' || b.Val[1] == 'f'):
+			p.hit("fold2:;IF->T")
 			b.Cat = 'T'
 			continue
 		case (a.Cat == 'n' || a.Cat == 'v') && b.Cat == '(' && isPseudoFunction(a.Val[:a.Len]):
+			p.hit("fold2:pseudo-function")
 			a.Cat = 'f'
 			continue
 		case a.Cat == 'k' && (upperEq("IN", a.Val[:a.Len]) || upperEq("NOT IN", a.Val[:a.Len])):
+			p.hit("fold2:IN")
 			if b.Cat == '(' {
 				a.Cat = 'o'
 			} else {
@@ -167,23 +185,27 @@ func (p *Pass) Fold() int {
 			}
 			continue
 		case a.Cat == 'o' && (upperEq("LIKE", a.Val[:a.Len]) || upperEq("NOT LIKE", a.Val[:a.Len])):
+			p.hit("fold2:LIKE")
 			if b.Cat == '(' {
 				a.Cat = 'f'
 			}
 			// falls through to the three-token rules
 		case a.Cat == 't' && isAny(b.Cat, "n1t(fvs"):
+			p.hit("fold2:type.x")
 			*a = *b
 			pos--
 			p.Folds++
 			left = 0
 			continue
 		case a.Cat == 'A' && b.Cat == 'n':
+			p.hit("fold2:collate")
 			if strings.IndexByte(b.Val, '_') >= 0 {
 				b.Cat = 't'
 				left = 0
 			}
 			// falls through
 		case a.Cat == '\\':
+			p.hit("fold2:backslash")
 			if arithmetic(b) {
 				a.Cat = '1'
 			} else {
@@ -194,16 +216,19 @@ func (p *Pass) Fold() int {
 			left = 0
 			continue
 		case a.Cat == '(' && b.Cat == '(':
+			p.hit("fold2:((")
 			pos--
 			left = 0
 			p.Folds++
 			continue
 		case a.Cat == ')' && b.Cat == ')':
+			p.hit("fold2:))")
 			pos--
 			left = 0
 			p.Folds++
 			continue
 		case a.Cat == '{' && b.Cat == 'n':
+			p.hit("fold2:{n")
 			if b.Len == 0 {
 				b.Cat = 'X'
 				return left + 2
@@ -213,6 +238,7 @@ func (p *Pass) Fold() int {
 			p.Folds += 2
 			continue
 		case b.Cat == '}':
+			p.hit("fold2:}")
 			pos--
 			left = 0
 			p.Folds++
@@ -228,64 +254,78 @@ func (p *Pass) Fold() int {
 		c := &v[left+2]
 		switch {
 		case a.Cat == '1' && b.Cat == 'o' && c.Cat == '1':
+			p.hit("fold3:1o1")
 			pos -= 2
 			left = 0
 			continue
 		case a.Cat == 'o' && b.Cat != '(' && c.Cat == 'o':
+			p.hit("fold3:oxo")
 			pos -= 2
 			left = 0
 			continue
 		case a.Cat == '&' && c.Cat == '&':
+			p.hit("fold3:&x&")
 			pos -= 2
 			left = 0
 			continue
 		case a.Cat == 'v' && b.Cat == 'o' && isAny(c.Cat, "v1n"):
+			p.hit("fold3:vo*")
 			pos -= 2
 			left = 0
 			continue
 		case isAny(a.Cat, "n1") && b.Cat == 'o' && isAny(c.Cat, "1n"):
+			p.hit("fold3:non")
 			pos -= 2
 			left = 0
 			continue
 		case isAny(a.Cat, "n1vs") && b.Cat == 'o' && b.Val[:b.Len] == "::" && c.Cat == 't':
+			p.hit("fold3:::type")
 			pos -= 2
 			left = 0
 			p.Folds += 2
 			continue
 		case isAny(a.Cat, "n1sv") && b.Cat == ',' && isAny(c.Cat, "1nsv"):
+			p.hit("fold3:x,x")
 			pos -= 2
 			left = 0
 			continue
 		case isAny(a.Cat, "EB,") && unary(b) && c.Cat == '(':
+			p.hit("fold3:E.unary.(")
 			*b = *c
 			pos--
 			left = 0
 			continue
 		case isAny(a.Cat, "kEB") && unary(b) && isAny(c.Cat, "1nvsf"):
+			p.hit("fold3:k.unary.x")
 			*b = *c
 			pos--
 			left = 0
 			continue
 		case a.Cat == ',' && unary(b) && isAny(c.Cat, "1nvs"):
+			p.hit("fold3:,.unary.x")
 			*b = *c
 			left = 0
 			pos -= 3
 			continue
 		case a.Cat == ',' && unary(b) && c.Cat == 'f':
+			p.hit("fold3:,.unary.f")
 			*b = *c
 			pos--
 			left = 0
 			continue
 		case a.Cat == 'n' && b.Cat == '.' && c.Cat == 'n':
+			p.hit("fold3:n.n")
 			pos -= 2
 			left = 0
 			continue
 		case a.Cat == 'E' && b.Cat == '.' && c.Cat == 'n':
+			p.hit("fold3:E.n")
 			*b = *c
 			pos--
 			left = 0
 			continue
 		case a.Cat == 'f' && b.Cat == '(' && c.Cat != ')':
+			p.hit("fold3:f(x")
 			if upperEq("USER", a.Val[:a.Len]) {
 				a.Cat = 'n'
 			}
@@ -293,6 +333,7 @@ func (p *Pass) Fold() int {
 		left++
 	}
 	if left < maxTokens && lastComment.Cat == 'c' {
+		p.hit("fold:trailing-comment-restored")
 		v[left] = lastComment
 		left++
 	}
@@ -320,10 +361,12 @@ func (p *Pass) Fingerprint() string {
 	// PHP back-tick comment: a trailing empty unclosed back-tick word is a comment
 	if n > 2 && v[n-1].Cat == 'n' && v[n-1].Open == '`' && v[n-1].Len == 0 && v[n-1].Close == 0 {
 		v[n-1].Cat = 'c'
+		p.hit("fp:php-backtick-comment")
 	}
 	b := make([]byte, 0, n)
 	for i := 0; i < n; i++ {
 		if v[i].Cat == 'X' {
+			p.hit("fp:evil-collapse")
 			v[0].Cat = 'X'
 			v[0].Val = "X"
 			p.FP = "X"
@@ -367,24 +410,31 @@ func (p *Pass) NotWhitelisted() bool {
 	v := &p.V
 	ntok := p.lx.NTok
 	if n > 1 && fp[n-1] == 'c' && strings.Contains(p.S, "sp_password") {
+		p.hit("wl:sp_password")
 		return true
 	}
+	p.hit("wl:len" + string(rune('0'+n)))
 	switch n {
 	case 2:
 		if fp[1] == 'U' {
+			p.hit("wl:1U")
 			return ntok != 2
 		}
 		if first(v[1].Val) == '#' {
+			p.hit("wl:#comment")
 			return false
 		}
 		if v[0].Cat == 'n' && v[1].Cat == 'c' && first(v[1].Val) != '/' {
+			p.hit("wl:nc")
 			return false
 		}
 		// SPEC-DECISION: a "1c" whose comment does not start with '/' is SQLi at once
 		if v[0].Cat == '1' && v[1].Cat == 'c' && first(v[1].Val) != '/' {
+			p.hit("wl:1c-eol")
 			return true
 		}
 		if v[0].Cat == '1' && v[1].Cat == 'c' {
+			p.hit("wl:1c-cstyle")
 			if ntok > 2 {
 				return true
 			}
@@ -407,18 +457,22 @@ func (p *Pass) NotWhitelisted() bool {
 			return false
 		}
 		if v[1].Len > 2 && first(v[1].Val) == '-' {
+			p.hit("wl:x-dashdash-text")
 			return false
 		}
 	case 3:
 		switch fp {
 		case "sos", "s&s":
+			p.hit("wl:sos")
 			return v[0].Open == 0 && v[2].Close == 0 && v[0].Close == v[2].Open
 		case "s&n", "n&1", "1&1", "1&v", "1&s":
 			if ntok == 3 {
+				p.hit("wl:s&n-exact3")
 				return false
 			}
 		}
 		if v[1].Cat == 'k' && (v[1].Len < 5 || !upperEq("INTO", v[1].Val[:4])) {
+			p.hit("wl:xkx-not-into")
 			return false
 		}
 	}
@@ -439,8 +493,11 @@ type PassResult struct {
 }
 
 // RunPass evaluates one context on fresh state.
-func RunPass(s string, m Mode, kw Lookup) PassResult {
-	p := &Pass{S: s, M: m, KW: kw}
+func RunPass(s string, m Mode, kw Lookup) PassResult { return RunPassTraced(s, m, kw, nil) }
+
+// RunPassTraced is RunPass with a rule-hit callback.
+func RunPassTraced(s string, m Mode, kw Lookup, hit func(string)) PassResult {
+	p := &Pass{S: s, M: m, KW: kw, Hit: hit}
 	p.Fingerprint()
 	r := PassResult{FP: p.FP, NTok: p.lx.NTok, Folds: p.Folds, NDDX: p.lx.NDDX, NHash: p.lx.NHash, V: p.V, NFold: p.NFold}
 	r.Blacklisted = p.Blacklisted()
